@@ -75,7 +75,13 @@ func source(prev chainhash.Hash, nonce uint32) domains.BlockHeaderSource {
 // every way at repository-method granularity with at most p preemptions. Afterwards INV-H
 // holds again (in particular one longest-chain header per height) and exactly the two
 // headers were added: the store is the one some sequential order would have produced.
-func HarnessTwoSubmitters(k int, p int) {
+func HarnessTwoSubmitters(k int, p int) { twoSubmitters(k, p, false) }
+
+// HarnessTwoBranches: the slice of HarnessTwoSubmitters in which one header extends the longest
+// chain and the other a stored stale branch (two peers feeding two branches) - one row further.
+func HarnessTwoBranches(k int, p int) { twoSubmitters(k, p, true) }
+
+func twoSubmitters(k int, p int, distinctStoredParents bool) {
 	pre := make([]hstore.H, k)
 	for i := range pre {
 		pre[i] = hstore.NondetH()
@@ -92,6 +98,15 @@ func HarnessTwoSubmitters(k int, p int) {
 		vh.Assume(vh.And(!vh.HashEq(pre[i].Hash, hashA), !vh.HashEq(pre[i].Hash, hashB)))
 	}
 	vh.Assume(!vh.HashEq(hashA, hashB))
+	if distinctStoredParents {
+		// one header extends the longest chain, the other a stale branch
+		pa, pb := false, false
+		for i := range pre {
+			pa = vh.Or(pa, vh.And(vh.HashEq(pre[i].Hash, srcA.PrevBlock), pre[i].State == hstore.L))
+			pb = vh.Or(pb, vh.And(vh.HashEq(pre[i].Hash, srcB.PrevBlock), pre[i].State == hstore.S))
+		}
+		vh.Assume(vh.And(pa, pb))
+	}
 	vh.Assume(hstore.Acyclic(hashes, prevs))
 	vh.Assume(vh.And(!vh.HashEq(hashA, pre[0].Prev), !vh.HashEq(hashB, pre[0].Prev)))
 
